@@ -15,12 +15,12 @@ def convert_to_list(item: Union[Any, List[Any]]) -> List[Any]:
     return [item]
 
 
-def regex_from_cf_string(action: str) -> Pattern:
+def regex_from_cf_string(action: str, ignore_case: bool = True) -> Pattern:
     # `*` and `?` are the only wildcards, any other character is a literal
     wildcards = {"*": ".*", "?": ".{1}"}
     action = "".join(wildcards.get(char) or re.escape(char) for char in action)
 
-    return re.compile(f"^{action}$", re.IGNORECASE)
+    return re.compile(f"^{action}$", re.IGNORECASE if ignore_case else 0)
 
 
 def not_ip(arg: Any) -> bool:
